@@ -74,7 +74,11 @@ func (p *parallelSolverWrapperImpl) Solve(
 	solveOptions ParallelSolveOptions,
 	startSolutions ...Solution,
 ) (SolutionChannel, error) {
-	start := ctx.Value(run.Start).(time.Time)
+	// the start time is optional in the context (the skeleton solver below treats it the same way)
+	start := time.Now()
+	if ctx.Value(run.Start) != nil {
+		start = ctx.Value(run.Start).(time.Time)
+	}
 	ctx, _ = context.WithDeadline(
 		ctx,
 		start.Add(solveOptions.Duration),
